@@ -177,6 +177,8 @@ def b_len(ev: Ev, n: ast.Call) -> Val:
 	v = ev.eval(n.args[0])
 	if isinstance(v.ty, TOpt):
 		v = ev.unwrap(v)
+	if v.is_conc() and v.conc is None:
+		return ev.eng.fresh(INT, 'len_of_none')  # only reachable under a guard that excludes None
 	if v.is_conc():
 		return ev.lift(len(v.conc))
 	if isinstance(v.ty, (TStr, TList)):
@@ -947,7 +949,7 @@ def modular_call(ev: Ev, fs: source.FuncSrc, c: Contract, args: list[Val], kwarg
 			continue
 		raise EngineError(f'modifies {m}: only fields of the receiver are supported')
 	rty2 = ev.eng.ty(c.types.get('return') or fs.node.returns, callee) if (c.types.get('return') or fs.node.returns is not None) else NONE
-	if fs.node.returns is not None and ast.unparse(fs.node.returns) == 'Self' and sp:
+	if fs.node.returns is not None and ast.unparse(fs.node.returns) == 'Self' and sp and 'return' not in c.types and env[sp].ty is not None:
 		rty2 = env[sp].ty
 	result = ev.eng.fresh(rty2, f'ret_{fs.node.name}') if not isinstance(rty2, TNone) else ev.lift(None)  # type: ignore[arg-type]
 	post_env['result'] = result
